@@ -433,7 +433,7 @@ OUTCOMES = ["primal_infeasible", "dual_infeasible", "max_iter", "nan", "huge", "
 
 def gen_cases(chk, rng):
     cases = []
-    mult = 6 if chk.thorough() else 1
+    mult = 12 if chk.thorough() else 1
     for be in range(5):
         for pre in (0, 1):
             for k in range(mult):
